@@ -26,14 +26,14 @@ func VerifRoot() string {
 }
 
 type Opts struct {
-	Module   string   // module name, e.g. "OrderedMap" (file found under spec/**)
-	Cfg      string   // cfg file name, e.g. "OrderedMap_quick.cfg"
-	Workers  int      // default 8
+	Module   string // module name, e.g. "OrderedMap" (file found under spec/**)
+	Cfg      string // cfg file name, e.g. "OrderedMap_quick.cfg"
+	Workers  int    // default 8
 	Timeout  time.Duration
-	DumpDot  bool     // -dump dot,actionlabels
-	Simulate string   // e.g. "num=100" -> -simulate num=100
-	Depth    int      // -depth
-	Seed     int64    // -seed (simulate)
+	DumpDot  bool   // -dump dot,actionlabels
+	Simulate string // e.g. "num=100" -> -simulate num=100
+	Depth    int    // -depth
+	Seed     int64  // -seed (simulate)
 	Coverage bool
 	Extra    []string
 	Env      []string // extra environment (IOEnv)
